@@ -76,3 +76,196 @@ pub fn c16_status_total(inp: &mut Inp) {
     }
     reached();
 }
+
+/// RFC 8010 §3.5.1 delimiter tags
+//@ {"tier":"quick","unwind":8,"desc":"delimiter tag table total over all 256 bytes: 0x01 operation, 0x02 job, 0x03 end, 0x04 printer, 0x05 unsupported decode to their own symbol, every other byte to None","sym":"tag byte (all 256)"}
+pub fn c16_delimiter_tags(inp: &mut Inp) {
+    let t = inp.u8();
+    let d = DelimiterTag::from_u8(t);
+    match t {
+        0x01 => assert!(d == Some(DelimiterTag::OperationAttributes)),
+        0x02 => assert!(d == Some(DelimiterTag::JobAttributes)),
+        0x03 => assert!(d == Some(DelimiterTag::EndOfAttributes)),
+        0x04 => assert!(d == Some(DelimiterTag::PrinterAttributes)),
+        0x05 => assert!(d == Some(DelimiterTag::UnsupportedAttributes)),
+        _ => assert!(d.is_none(), "no other byte is a delimiter tag"),
+    }
+    assert!(DelimiterTag::OperationAttributes as u8 == 0x01 && DelimiterTag::JobAttributes as u8 == 0x02);
+    assert!(DelimiterTag::EndOfAttributes as u8 == 0x03 && DelimiterTag::PrinterAttributes as u8 == 0x04 && DelimiterTag::UnsupportedAttributes as u8 == 0x05);
+    reached();
+}
+
+/// RFC 8010 §3.5.2 value tags (IANA "Attribute Syntaxes" registry)
+const VTAGS: [(u8, ValueTag); 23] = [
+    (0x10, ValueTag::Unsupported),
+    (0x12, ValueTag::Unknown),
+    (0x13, ValueTag::NoValue),
+    (0x21, ValueTag::Integer),
+    (0x22, ValueTag::Boolean),
+    (0x23, ValueTag::Enum),
+    (0x30, ValueTag::OctetStringUnspecified),
+    (0x31, ValueTag::DateTime),
+    (0x32, ValueTag::Resolution),
+    (0x33, ValueTag::RangeOfInteger),
+    (0x34, ValueTag::BegCollection),
+    (0x35, ValueTag::TextWithLanguage),
+    (0x36, ValueTag::NameWithLanguage),
+    (0x37, ValueTag::EndCollection),
+    (0x41, ValueTag::TextWithoutLanguage),
+    (0x42, ValueTag::NameWithoutLanguage),
+    (0x44, ValueTag::Keyword),
+    (0x45, ValueTag::Uri),
+    (0x46, ValueTag::UriScheme),
+    (0x47, ValueTag::Charset),
+    (0x48, ValueTag::NaturalLanguage),
+    (0x49, ValueTag::MimeMediaType),
+    (0x4a, ValueTag::MemberAttrName),
+];
+
+//@ {"tier":"quick","unwind":30,"desc":"value tag table total over all 256 bytes against RFC 8010 3.5.2: each registered tag decodes to its own symbol and the symbol's number is the registry value; every other byte decodes to None; IppValue::to_tag of each value kind is its registered tag","sym":"tag byte (all 256), field contents of the sample values"}
+pub fn c16_value_tags(inp: &mut Inp) {
+    let t = inp.u8();
+    let d = ValueTag::from_u8(t);
+    let mut listed = false;
+    let mut k = 0;
+    while k < 23 {
+        assert!(VTAGS[k].1 as u8 == VTAGS[k].0, "symbol has the registry value");
+        if VTAGS[k].0 == t {
+            listed = true;
+            assert!(d == Some(VTAGS[k].1), "registered tag decodes to its own symbol");
+        }
+        k += 1;
+    }
+    if !listed {
+        assert!(d.is_none(), "unregistered byte is not a value tag");
+    }
+    // what the encoder writes for each kind of value
+    let i = inp.i32();
+    assert!(IppValue::Integer(i).to_tag() == 0x21);
+    assert!(IppValue::Enum(i).to_tag() == 0x23);
+    assert!(IppValue::Boolean(inp.bool()).to_tag() == 0x22);
+    assert!(IppValue::RangeOfInteger { min: i, max: i }.to_tag() == 0x33);
+    assert!(IppValue::Resolution { cross_feed: i, feed: i, units: 3 }.to_tag() == 0x32);
+    assert!(IppValue::NoValue.to_tag() == 0x13);
+    assert!(IppValue::DateTime { year: 1, month: 1, day: 1, hour: 0, minutes: 0, seconds: 0, deci_seconds: 0, utc_dir: '+', utc_hours: 0, utc_mins: 0 }.to_tag() == 0x31);
+    let s = || String::new();
+    assert!(IppValue::OctetString(s()).to_tag() == 0x30);
+    assert!(IppValue::TextWithoutLanguage(s()).to_tag() == 0x41);
+    assert!(IppValue::NameWithoutLanguage(s()).to_tag() == 0x42);
+    assert!(IppValue::TextWithLanguage { language: s(), text: s() }.to_tag() == 0x35);
+    assert!(IppValue::NameWithLanguage { language: s(), name: s() }.to_tag() == 0x36);
+    assert!(IppValue::Keyword(s()).to_tag() == 0x44);
+    assert!(IppValue::Uri(s()).to_tag() == 0x45);
+    assert!(IppValue::UriScheme(s()).to_tag() == 0x46);
+    assert!(IppValue::Charset(s()).to_tag() == 0x47);
+    assert!(IppValue::NaturalLanguage(s()).to_tag() == 0x48);
+    assert!(IppValue::MimeMediaType(s()).to_tag() == 0x49);
+    assert!(IppValue::MemberAttrName(s()).to_tag() == 0x4a);
+    assert!(IppValue::Collection(crate::tpl::CMap::new()).to_tag() == 0x34);
+    assert!(IppValue::Other { tag: t, data: bytes::Bytes::new() }.to_tag() == t);
+    reached();
+}
+
+//@ {"tier":"quick","unwind":50,"desc":"operation ids total over all u16: RFC 8011 5.4.15 / CUPS ids decode to their own symbol with the registry number; the ids the builders use: Print-Job 2, Create-Job 5, Send-Document 6, Cancel-Job 8, Get-Job-Attributes 9, Get-Jobs 10, Get-Printer-Attributes 11, Purge-Jobs 0x12, CUPS-Get-Printers 0x4002, CUPS-Delete-Printer 0x4004","sym":"operation id u16 (all 65536)"}
+pub fn c16_operations(inp: &mut Inp) {
+    let c = inp.u16();
+    const OPS: [(u16, Operation); 33] = [
+        (0x0002, Operation::PrintJob),
+        (0x0003, Operation::PrintUri),
+        (0x0004, Operation::ValidateJob),
+        (0x0005, Operation::CreateJob),
+        (0x0006, Operation::SendDocument),
+        (0x0007, Operation::SendUri),
+        (0x0008, Operation::CancelJob),
+        (0x0009, Operation::GetJobAttributes),
+        (0x000a, Operation::GetJobs),
+        (0x000b, Operation::GetPrinterAttributes),
+        (0x000c, Operation::HoldJob),
+        (0x000d, Operation::ReleaseJob),
+        (0x000e, Operation::RestartJob),
+        (0x0010, Operation::PausePrinter),
+        (0x0011, Operation::ResumePrinter),
+        (0x0012, Operation::PurgeJobs),
+        (0x4001, Operation::CupsGetDefault),
+        (0x4002, Operation::CupsGetPrinters),
+        (0x4003, Operation::CupsAddModifyPrinter),
+        (0x4004, Operation::CupsDeletePrinter),
+        (0x4005, Operation::CupsGetClasses),
+        (0x4006, Operation::CupsAddModifyClass),
+        (0x4007, Operation::CupsDeleteClass),
+        (0x4008, Operation::CupsAcceptJobs),
+        (0x4009, Operation::CupsRejectJobs),
+        (0x400a, Operation::CupsSetDefault),
+        (0x400b, Operation::CupsGetDevices),
+        (0x400c, Operation::CupsGetPPDs),
+        (0x400d, Operation::CupsMoveJob),
+        (0x400e, Operation::CupsAuthenticateJob),
+        (0x400f, Operation::CupsGetPPD),
+        (0x4027, Operation::CupsGetDocument),
+        (0x4028, Operation::CupsCreateLocalPrinter),
+    ];
+    let d = Operation::from_u16(c);
+    let mut listed = false;
+    let mut k = 0;
+    while k < 33 {
+        assert!(OPS[k].1 as u16 == OPS[k].0, "symbol has the registry number");
+        if OPS[k].0 == c {
+            listed = true;
+            assert!(d == Some(OPS[k].1), "registered id decodes to its own symbol");
+        }
+        k += 1;
+    }
+    if !listed {
+        assert!(d.is_none());
+    }
+    reached();
+}
+
+//@ {"tier":"quick","unwind":50,"desc":"printer-state, job-state, orientation, print-quality, finishings enums total over all i32 against PWG 5100.1 / RFC 8011 tables","sym":"enum value i32 (all 2^32)"}
+pub fn c16_enums(inp: &mut Inp) {
+    let v = inp.i32();
+    let ps = PrinterState::from_i32(v);
+    match v {
+        3 => assert!(ps == Some(PrinterState::Idle)),
+        4 => assert!(ps == Some(PrinterState::Processing)),
+        5 => assert!(ps == Some(PrinterState::Stopped)),
+        _ => assert!(ps.is_none()),
+    }
+    let js = JobState::from_i32(v);
+    match v {
+        3 => assert!(js == Some(JobState::Pending)),
+        4 => assert!(js == Some(JobState::PendingHeld)),
+        5 => assert!(js == Some(JobState::Processing)),
+        6 => assert!(js == Some(JobState::ProcessingStopped)),
+        7 => assert!(js == Some(JobState::Canceled)),
+        8 => assert!(js == Some(JobState::Aborted)),
+        9 => assert!(js == Some(JobState::Completed)),
+        _ => assert!(js.is_none()),
+    }
+    let o = Orientation::from_i32(v);
+    match v {
+        3 => assert!(o == Some(Orientation::Portrait)),
+        4 => assert!(o == Some(Orientation::Landscape)),
+        5 => assert!(o == Some(Orientation::ReverseLandscape)),
+        6 => assert!(o == Some(Orientation::ReversePortrait)),
+        _ => assert!(o.is_none()),
+    }
+    let q = PrintQuality::from_i32(v);
+    match v {
+        3 => assert!(q == Some(PrintQuality::Draft)),
+        4 => assert!(q == Some(PrintQuality::Normal)),
+        5 => assert!(q == Some(PrintQuality::High)),
+        _ => assert!(q.is_none()),
+    }
+    let f = Finishings::from_i32(v);
+    let fin_defined = (v >= 3 && v <= 9) || (v >= 20 && v <= 35) || (v >= 70 && v <= 85);
+    assert!(f.is_some() == fin_defined, "finishings defined exactly on 3..=9, 20..=35, 70..=85");
+    if let Some(x) = f {
+        assert!(x as i32 == v);
+    }
+    assert!(Finishings::None as i32 == 3 && Finishings::Staple as i32 == 4 && Finishings::Punch as i32 == 5 && Finishings::Cover as i32 == 6);
+    assert!(Finishings::Bind as i32 == 7 && Finishings::SaddleStitch as i32 == 8 && Finishings::EdgeStitch as i32 == 9);
+    assert!(Finishings::StapleTopLeft as i32 == 20 && Finishings::StapleDualLeft as i32 == 28 && Finishings::StapleTripleBottom as i32 == 35);
+    assert!(Finishings::PunchTopLeft as i32 == 70 && Finishings::PunchDualLeft as i32 == 74 && Finishings::PunchQuadBottom as i32 == 85);
+    reached();
+}
